@@ -265,6 +265,10 @@ func handle(line string) (out string) {
 	return "DRIVER-ERROR unknown command " + f[0]
 }
 
+// VERIF_FLUSH=1: flush after every case (the orchestrator re-runs the cases of a crashed batch this
+// way to find the one that kills the process)
+var flushEach = os.Getenv("VERIF_FLUSH") == "1"
+
 func main() {
 	flag.Parse()
 	in := bufio.NewReaderSize(os.Stdin, 1<<20)
@@ -280,7 +284,7 @@ func main() {
 			case r := <-done:
 				out.WriteString(r)
 				out.WriteByte('\n')
-				if strings.HasPrefix(line, "conc") {
+				if flushEach || strings.HasPrefix(line, "conc") {
 					out.Flush() // a runtime crash in a later case must not swallow this result
 				}
 			case <-time.After(*flagTimeout):
